@@ -445,6 +445,130 @@ pub fn roots_once(which: Which, tier: &str, seed: i64) -> (Acc, Vec<SpaceReport>
     })
 }
 
+/// Walk the game tree below `g` to `plies` with the real generator and look every position up in the table (hook H5:
+/// read-only accessor of the cached move). Returns the paths of positions whose cached move is not one of their
+/// legal moves. This is the invariant behind C06/C18 ("a cached move is legal wherever its hash recurs"); a breach is
+/// not yet a violation - the caller turns it into one by searching that position and judging what is announced/printed.
+fn audit_table(g: &mut Game, table: &TranspositionTable, plies: u32, path: &mut Vec<String>, budget: &mut u32, out: &mut Vec<(Vec<String>, String)>) {
+    if *budget == 0 {
+        return;
+    }
+    *budget -= 1;
+    let list = moves(g, true);
+    if let Some(e) = table.get(&g.hash()) {
+        if let Some(m) = e.verif_pv() {
+            if !list.iter().any(|x| *x == m) {
+                out.push((path.clone(), m.uci_notation()));
+            }
+        }
+    }
+    if plies == 0 {
+        return;
+    }
+    for m in list.iter() {
+        g.push(*m);
+        path.push(m.uci_notation());
+        audit_table(g, table, plies - 1, path, budget, out);
+        path.pop();
+        g.pop(*m);
+    }
+}
+
+/// Histories that contain INTERRUPTED searches (every timed search of real play is one): for every root of every family
+/// and depth 2..=3, for every stop point N (all of 0..=P when P is small, else a fixed stride giving ~48 (quick) / ~1500 (thorough) points): the
+/// search is stopped inside poll N on a fresh table; then (1) the same root is searched again on that table, (2) the
+/// table is audited to the search depth and every position holding a cached move that is not legal there is searched
+/// at depths 1 and 2. All follow-up searches are judged by the property's oracle (C06: announced move; C18: pv lines).
+pub fn interrupted_histories(which: Which, tier: &str) -> (Acc, SpaceReport) {
+    let q = tier == "quick";
+    let mut cases: Vec<(RootSpec, u8)> = vec![];
+    for (_, root) in family_roots() {
+        for spec in family(root) {
+            for d in 2..=(if q { 3 } else { 4 }) {
+                cases.push((spec.clone(), d));
+            }
+        }
+    }
+    cases.sort();
+    cases.dedup();
+    let t0 = std::time::Instant::now();
+    let acc = par_items(&cases, &|_, (spec, d), acc| {
+        let Ok((game, pos)) = spec.build() else { return };
+        let legal = pos.legal_uci_sorted();
+        if legal.len() < 2 {
+            return;
+        }
+        let mut t = new_table();
+        let free = run_search(&game, &mut t, &SearchCfg::depth(*d));
+        if free.result.is_err() {
+            return;
+        }
+        let p = free.polls;
+        let stride = if q { (p / 48).max(1) } else { (p / 1500).max(1) };
+        let audit_budget: u32 = if q { 3_000 } else { 60_000 };
+        let b_root = Built { spec: spec.clone(), game: game.clone(), pos, legal };
+        let mut n = 0;
+        while n <= p {
+            let mut table = new_table();
+            let mut cfg = SearchCfg::depth(*d);
+            cfg.stop_at = n;
+            let stopped = run_search(&game, &mut table, &cfg);
+            acc.states += 1;
+            let first = format!("S-stopped[{} ; depth {} ; stop inside poll {}]", spec.text(), d, n);
+            let mk_replay = |follow: &RootSpec, fd: u8| json::obj(vec![("kind", json::s("e3-interrupted")), ("fen", json::s(spec.fen.clone())), ("history", json::s(spec.history.join(" "))), ("depth", json::i(*d)), ("stop_at_poll", json::i(n)), ("follow_fen", json::s(follow.fen.clone())), ("follow_history", json::s(follow.history.join(" "))), ("follow_depth", json::i(fd))]);
+            if stopped.result.is_ok() {
+                // (1) the same root again
+                for fd in [1u8, *d] {
+                    let mut t2 = table.clone();
+                    let run = run_search(&game, &mut t2, &SearchCfg::depth(fd));
+                    let w = format!("{} ; S[{} ; depth {}]", first, spec.text(), fd);
+                    judge_with_replay(which, &b_root, fd, &run, &w, mk_replay(spec, fd), acc);
+                }
+                // (2) audit, then search every position whose cached move is not legal there
+                let mut bad = vec![];
+                let mut g = game.clone();
+                let mut budget = audit_budget;
+                audit_table(&mut g, &table, *d as u32, &mut vec![], &mut budget, &mut bad);
+                if budget == 0 {
+                    acc.count("table audits cut by the node budget (not complete for that table)");
+                }
+                acc.add("positions looked up by table audits", (audit_budget - budget) as u64);
+                for (path, cached) in bad.iter().take(4) {
+                    acc.count("table entries whose cached move is not legal in their position (searched as roots)");
+                    let mut h = spec.history.clone();
+                    h.extend(path.iter().cloned());
+                    let follow = RootSpec { fen: spec.fen.clone(), history: h };
+                    let Ok((fg, fp)) = follow.build() else { continue };
+                    let fb = Built { spec: follow.clone(), game: fg, legal: fp.legal_uci_sorted(), pos: fp };
+                    for fd in [1u8, 2] {
+                        let mut t2 = table.clone();
+                        let run = run_search(&fb.game, &mut t2, &SearchCfg::depth(fd));
+                        let w = format!("{} ; [table holds {} for this position] S[{} ; depth {}]", first, cached, follow.text(), fd);
+                        judge_with_replay(which, &fb, fd, &run, &w, mk_replay(&follow, fd), acc);
+                    }
+                }
+            }
+            n += stride;
+        }
+        if acc.samples.len() < 2 {
+            acc.sample(json::obj(vec![("root", json::s(spec.text())), ("depth", json::i(*d)), ("polls_of_the_free_run", json::i(p)), ("stop_points", json::s(format!("0..={} step {}", p, stride)))]));
+        }
+    });
+    let rep = SpaceReport { name: format!("interrupted histories: {} (root, depth) cases of the families, a search stopped inside every poll (all when P <= 48, else ~48 by fixed stride; 1500 in the thorough tier), then the same root again at depth 1 and d, a table audit to depth d, and depth-1/2 searches of every position whose cached move is not legal there", cases.len()), states: acc.states, exhaustive: true, note: format!("[{:.1}s]", t0.elapsed().as_secs_f64()) };
+    (acc, rep)
+}
+
+/// `judge` with a caller-supplied replay artefact (the word is not a plain E3 word)
+fn judge_with_replay(which: Which, b: &Built, d: u8, run: &SearchRun, word: &str, replay: J, acc: &mut Acc) {
+    let mut tmp = Acc::new();
+    judge(which, b, d, run, word, &J::Null, &mut tmp);
+    for v in tmp.violations.drain(..) {
+        acc.violation(v.key, v.what, replay.clone());
+    }
+    tmp.n_violations = 0;
+    acc.merge(tmp);
+}
+
 pub fn run(prop: &str, tier: &str, seed: i64) -> Outcome {
     let which = match prop {
         "C06" => Which::C06,
@@ -474,6 +598,11 @@ pub fn run(prop: &str, tier: &str, seed: i64) -> Outcome {
             reports.push(x);
         }
     }
+    if which != Which::C08 {
+        let (a, r) = interrupted_histories(which, tier);
+        acc.merge(a);
+        reports.push(r);
+    }
     if which == Which::C06 {
         let (a, r) = crate::props::c08::deep_histories(tier, "C06");
         acc.merge(a);
@@ -496,6 +625,28 @@ pub fn replay(prop: &str, j: &J) -> Result<Acc, String> {
         "C18" => Which::C18,
         _ => Which::C08,
     };
+    if j.get("kind").and_then(|x| x.as_str()) == Some("e3-interrupted") {
+        let g = |k: &str| j.get(k).and_then(|x| x.as_str()).unwrap_or("").to_string();
+        let n = |k: &str| j.get(k).and_then(|x| x.as_i()).unwrap_or(0);
+        let spec = RootSpec::with(&g("fen"), &g("history"));
+        let follow = RootSpec::with(&g("follow_fen"), &g("follow_history"));
+        let (game, _) = spec.build()?;
+        let (fg, fp) = follow.build()?;
+        let mut table = new_table();
+        let mut cfg = SearchCfg::depth(n("depth") as u8);
+        cfg.stop_at = n("stop_at_poll") as u64;
+        let stopped = run_search(&game, &mut table, &cfg);
+        out!("  stopped search: {:?}, polls {}", stopped.result, stopped.polls);
+        let fb = Built { spec: follow.clone(), game: fg, legal: fp.legal_uci_sorted(), pos: fp };
+        let fd = n("follow_depth") as u8;
+        let run = run_search(&fb.game, &mut table, &SearchCfg::depth(fd));
+        for l in &run.transcript {
+            out!("      {}", l);
+        }
+        let mut acc = Acc::new();
+        judge_with_replay(which, &fb, fd, &run, &format!("S-stopped[{} ; depth {} ; stop inside poll {}] ; S[{} ; depth {}]", spec.text(), n("depth"), n("stop_at_poll"), follow.text(), fd), j.clone(), &mut acc);
+        return Ok(acc);
+    }
     let word = j.get("word").and_then(|x| x.as_arr()).ok_or("word")?;
     let mut acc = Acc::new();
     let mut table = new_table();
